@@ -1054,7 +1054,9 @@ Statement: MatchedStatement /* "standard" way of solving if-then-else shift-redu
         ;
 
 IfCondition: T_IF '(' { CALL(@1, @2, if_begin()); } ExprList ')' { CALL(@3, @3, if_condition()); }
-        | T_IF '(' error ')'
+        | T_IF '(' error ')' {
+          CALL(@1, @4, expr_false());
+        }
         ;
 
 IfConditionThenMatched: IfCondition MatchedStatement T_ELSE { CALL(@1, @3, if_then()); };
